@@ -518,7 +518,7 @@ def ackPass (s0 : St) (p : Packet) (ra : Option Bytes) (settle : Bool) : M (Opti
 /-- dry run, `savePacket`, and the eIBC order for refunds -/
 def ackDelay (s0 : St) (p : Packet) (refund : Bool) : M (Option St) :=
   if (refund || p.fwd.isSome) && (icsRefund s0 p).isNone then .error (refundErr s0 p) else
-  if refund then
+  if refund && p.fwd.isNone then   -- `isForwarded`: no demand order for a packet the packet-forward middleware sent
     match eibcRefundHandler (setPacket (addByAddr s0 p.target (pkey p)) p) p with
     | .error e => .error e
     | .ok s2 => .ok (some s2)
